@@ -592,7 +592,7 @@ func binExclude(o corrOpts, sum *res.Summary, r *rng.R, bin string) {
 	}
 	sort.Strings(all)
 	sort.Strings(cats)
-	junk := []string{"IMM0", "ct", "junk", "P", "TON", "CTOR0", "imm001", "X", "I", "ALLL", "AL"}
+	junk := []string{"IMM0", "ct", "junk", "P", "TON", "CTOR0", "imm001", "X", "I", "ALLL", "AL", "IMM 01", "ctor 02", "not all", "TONL\t03", "IMM;IMM01", "ALL."}
 	// hierarchy from the model (regenerated table)
 	hierOf := map[string][]string{}
 	{
